@@ -18,7 +18,8 @@ from aiocoap import Message, GET, PUT, NON, CON, error, resource
 PROP = "C18"
 LEVEL = "model_checking"
 RULE = ("E2: Context.shutdown() injected after every step of the default run (K=1) and of every one-deviation run (K=2; drop, "
-        "duplicate, reorder) of nine busy scenarios, followed by a full drain; distinct = distinct schedule")
+        "duplicate, reorder) of ten busy scenarios, plain and with the loop stalling for 0.15 s / 3.5 s after the 1st..6th loop iteration "
+        "of the shutdown (timers due in between run late), followed by a full drain; distinct = distinct schedule")
 ASSUMPTIONS = [
     "SHUTDOWN_TIMEOUT = 3 s (numbers/constants.py documentation); EXCHANGE_LIFETIME = 247 s",
     "the bystander context lives in the same loop and talks to its own peer",
@@ -29,7 +30,8 @@ PEER = ("2001:db8::1", 5683)     # its peer (server or client role)
 OCTX = ("2001:db8::b", 40000)    # bystander context
 OSRV = ("2001:db8::2", 5683)     # bystander's server
 
-SCENARIOS = ("await-ack", "await-separate", "bw-up", "bw-down", "obs-client", "obs-server", "backlog", "slow-handler", "dedup-alive")
+SCENARIOS = ("await-ack", "await-separate", "bw-up", "bw-down", "obs-client", "obs-server", "backlog", "slow-handler", "slow-twice", "dedup-alive")
+STALLS = [(j, dt) for j in (1, 2, 3, 4, 6) for dt in (0.15, 3.5)]   # the loop stalls for dt seconds after the j-th iteration of the shutdown
 
 
 class LateServer(RefServer):
@@ -66,11 +68,12 @@ class ShutScenario(NetScenario):
     horizon = 320.0
     max_steps = 160
 
-    def __init__(self, kind, K):
-        self.name = "S-SHUT-" + kind
+    def __init__(self, kind, K, stalls=False):
+        self.name = "S-SHUT-" + kind + ("+stall" if stalls else "")
         self.kind = kind
         self.K = K
-        self.params = {"kind": kind}
+        self.stalls = stalls
+        self.params = {"kind": kind, "stalls": stalls}
 
     def build(self, st):
         kind = self.kind
@@ -85,7 +88,7 @@ class ShutScenario(NetScenario):
         st.sent_at_return = None
         # --- the victim
         site = None
-        if kind in ("obs-server", "slow-handler", "dedup-alive"):
+        if kind in ("obs-server", "slow-handler", "slow-twice", "dedup-alive"):
             site = resource.Site()
 
             class Slow(resource.Resource):
@@ -152,7 +155,7 @@ class ShutScenario(NetScenario):
                 r.observation.register_callback(lambda m: None)
             elif kind == "obs-server":
                 st.world.emit(PEER, V, rc.encode((rc.CON, 1, 0x5001, b"\x0b", [(6, b""), (11, b"obs")], b"")))
-            elif kind == "slow-handler":
+            elif kind in ("slow-handler", "slow-twice"):
                 st.world.emit(PEER, V, rc.encode((rc.CON, 1, 0x5001, b"\x0b", [(11, b"slow")], b"")))
             elif kind == "dedup-alive":
                 st.world.emit(PEER, V, rc.encode((rc.CON, 1, 0x5001, b"\x0b", [(11, b"fast")], b"")))
@@ -161,6 +164,9 @@ class ShutScenario(NetScenario):
             st.script.append(("first response", lambda st: st.notifier.first_response(1, b"v1")))
             st.script.append(("notify", lambda st: st.notifier.notify(2, b"v2", con=True)))
             st.script.append(("notify", lambda st: st.notifier.notify(3, b"v3", con=False)))
+        if kind == "slow-twice":
+            # the peer gives up on the first request and re-uses its token for a new one while the first handler still runs
+            st.script.append(("same token again", lambda st: st.world.emit(PEER, V, rc.encode((rc.CON, 1, 0x5002, b"\x0b", [(11, b"slow")], b"")))))
         if kind == "obs-server":
             st.script.append(("change", lambda st: st.ob.updated_state()))
             st.script.append(("change", lambda st: st.ob.updated_state()))
@@ -168,7 +174,7 @@ class ShutScenario(NetScenario):
     # -- shutdown is the fault
     def faults(self, st):
         if st.shut_at is None and st.script_pos > 0:
-            return [("shutdown", 1)]
+            return [("shutdown", 1)] + ([("shutdown/stall%d/%s" % (j, dt), 1) for j, dt in STALLS] if self.stalls else [])
         return []
 
     def apply_fault(self, st, label):
@@ -176,7 +182,8 @@ class ShutScenario(NetScenario):
         st.shut_at = w.loop.time()
         st.pending_at_shut = [(n, f) for n, f in st.futs if not f.done()]
         st.obs_alive_at_shut = self.kind == "obs-client" and not st.obsreq.observation.cancelled
-        st.handler_running = st.handler_log.count("start") > st.handler_log.count("done") + st.handler_log.count("cancelled")
+        st.handler_running = st.handler_log.count("start") - st.handler_log.count("done") - st.handler_log.count("cancelled")
+        st.cancelled_before = st.handler_log.count("cancelled")
         # an application that re-issues a request the moment the outstanding one fails (lands inside the shutdown window)
         st.retries = []
 
@@ -189,6 +196,12 @@ class ShutScenario(NetScenario):
         for n, f in st.pending_at_shut:
             f.add_done_callback(retry)
         st.shut_task = w.loop.create_task(st.v.ctx.shutdown())
+        if "/stall" in label:
+            _, j, dt = label.split("/")
+            for i in range(int(j[5:])):
+                if w.loop._ready:
+                    w.loop._run_once()
+            w.loop._vtime += float(dt)      # the loop was kept busy elsewhere: every timer due in between is late
         w.loop.settle()
         # let shutdown itself run (virtual time) up to the time-out
         while not st.shut_task.done() and w.loop.next_timer() is not None and w.loop.next_timer() <= st.shut_at + 3.0 + 1e-9:
@@ -227,9 +240,10 @@ class ShutScenario(NetScenario):
             if len(st.obs_events) != 1 or not isinstance(st.obs_events[0], error.Error):
                 st.violations.append(Violation("observation-not-terminated", "one errback with a library error",
                                                [core.exc_desc(e) for e in st.obs_events], "protocol.py", {}, key="obs"))
-        if st.handler_running and "cancelled" not in st.handler_log:
-            st.violations.append(Violation("handler-not-cancelled", "running handler sees CancelledError", st.handler_log,
-                                           "tokenmanager.py:shutdown", {}, key="handler"))
+        still = st.handler_log.count("start") - st.handler_log.count("done") - st.handler_log.count("cancelled")
+        if still > 0:
+            st.violations.append(Violation("handler-not-cancelled", "every running handler has ended or seen CancelledError when shutdown returns",
+                                           st.handler_log, "tokenmanager.py:shutdown", {}, key="handler"))
         # a request submitted after shutdown fails at once with the shutdown error
         m = Message(code=GET, uri_path=["late"])
         m.remote = st.v.remote(PEER)
@@ -266,10 +280,11 @@ class ShutScenario(NetScenario):
 def run(tier, seed, jobs):
     K = 1 if tier == "quick" else 2
     res = explore_schedules([ShutScenario(k, K) for k in SCENARIOS], K, jobs)
+    res.merge(explore_schedules([ShutScenario(k, 1, stalls=True) for k in SCENARIOS], 1, jobs))
     if tier == "quick":
         res.merge(explore_schedules([ShutScenario(k, 2) for k in ("slow-handler", "bw-down", "obs-client")], 2, jobs, cap=40000))
     return res
 
 
 def replay(case, scenario, seed):
-    return replay_schedule(ShutScenario(case["params"]["kind"], 9), case["choices"])
+    return replay_schedule(ShutScenario(case["params"]["kind"], 9, case["params"].get("stalls", False)), case["choices"])
